@@ -171,12 +171,65 @@ def history_logs(rng):
     return logs, extra
 
 
+def subscription_logs(rng):
+    """py_gql.execution.subscribe under instrumentation and middlewares: the execution stage brackets the set-up of the source
+    stream and fires once for the whole subscription; every delivered event is one segment of field hooks (closed by the
+    harness' pseudo event "ev")."""
+    import asyncio
+    from py_gql import build_schema
+    from py_gql.execution import subscribe
+    from py_gql.execution.runtime import AsyncIORuntime
+    from py_gql.lang import parse
+    logs = []
+    for ni, nm, nevents in ((1, 0, 2), (2, 0, 3), (3, 0, 1), (2, 0, 0)):      # subscribe() takes no middlewares
+        rec = schedreplay.Recorder(ni, nm)
+        schema = build_schema("type Query { a: Int } type Subscription { s(n: Int = 1): M } type M { x: Int, y: M }")
+
+        async def source(root, ctx, info, **kw):
+            for i in range(nevents):
+                yield {"x": i, "y": {"x": 10 + i}}
+
+        def res_s(root, ctx, info, **kw):
+            rec.emit(e="res", p="/".join(map(str, info.path)))
+            return root
+
+        def res_x(root, ctx, info, **kw):
+            rec.emit(e="res", p="/".join(map(str, info.path)))
+            return root["x"]
+
+        def res_y(root, ctx, info, **kw):
+            rec.emit(e="res", p="/".join(map(str, info.path)))
+            return root.get("y")
+        schema.register_subscription("Subscription", "s", source)
+        schema.register_resolver("Subscription", "s", res_s)
+        schema.register_resolver("M", "x", res_x)
+        schema.register_resolver("M", "y", res_y)
+        loop = asyncio.new_event_loop()
+        exc = None
+        q = "subscription { s { x y { x } } }"
+        try:
+            rt = AsyncIORuntime(loop=loop, execute_blocking_functions_in_thread=False)
+
+            async def main():
+                stream = await subscribe(schema, parse(q), runtime=rt, instrumentation=rec.instrumentation())
+                async for _ in stream:
+                    rec.emit(e="ev")
+            loop.run_until_complete(main())
+        except Exception as e:
+            exc = repr(e)
+        finally:
+            loop.close()
+        logs.append({"cfg": "asyncio", "ninstr": ni, "nmw": nm, "events": rec.log, "crash": False, "sub": True,
+                     "request": "subscription-%d-events" % nevents, "query": q, "exception": exc})
+    return logs
+
+
 def norm_events(events):
     return [{"e": ev["e"], "i": ev.get("i", 0), "m": ev.get("m", 0), "p": ev.get("p", "")} for ev in events]
 
 
 def judge(chk, logs, label):
-    traces = [{"events": norm_events(l["events"]), "ninstr": max(1, l["ninstr"]), "nmw": l["nmw"], "crash": bool(l["crash"])} for l in logs]
+    traces = [{"events": norm_events(l["events"]), "ninstr": max(1, l["ninstr"]), "nmw": l["nmw"], "crash": bool(l["crash"]), "sub": bool(l.get("sub"))} for l in logs]
     shards = par.chunks(list(enumerate(traces)), min(par.NPROC, max(1, len(traces) // 300)))
     cfg = tlc.cfg(invariants=["Verdict"])
 
@@ -216,6 +269,12 @@ def run(chk):
     nx = non_execution_logs(rng)
     chk.count("non-execution logs", len(nx))
     logs += nx
+    sl = subscription_logs(rng)
+    chk.count("subscription logs", len(sl))
+    for l in sl:
+        if l["exception"]:
+            chk.diverge("hooks/subscription-raises", {"error": l["exception"], "events": l["events"][:30]}, "subscribe() under instrumentation raises")
+    logs += sl
     hl, hextra = history_logs(rng)
     chk.count("shared-runtime history logs", len(hl))
     logs += hl
